@@ -28,6 +28,19 @@ Definition registered (me : N) (before after : list entry) : list N := scan me b
 
 Definition holds (me : N) (before after : list entry) (s : N) : bool := existsb (N.eqb s) (registered me before after).
 
+(* ---- the two instants of an activation ----
+   [L]: the metadata entries in the order in which they reach this replica.  The live path sees the
+   entries that arrive once the subscription exists (from index [i_sub] on); the history path sees
+   the log as it stands when the scan takes its snapshot (the first [i_snap] entries).  In
+   ActivateGroupContext the subscription comes first, so i_sub <= i_snap: an entry that arrives in
+   between is seen by BOTH paths (registering twice is harmless, C02_reregister_noop); were the scan
+   to come first, such an entry would be seen by neither. *)
+Definition registered_window (me : N) (L : list entry) (i_sub i_snap : nat) : list N :=
+  scan me (firstn i_snap L) ++ live me (skipn i_sub L).
+
+Definition holds_window (me : N) (L : list entry) (i_sub i_snap : nat) (s : N) : bool :=
+  existsb (N.eqb s) (registered_window me L i_sub i_snap).
+
 (* ---- a variant that wants the sender's device announcement first ----
    live path: an announcement of a not yet announced sender is put aside and registered when the
    device announcement arrives; history path: such an announcement is skipped.  Each half looks
